@@ -293,6 +293,95 @@ func c13Timeout(id string, class int, payloadKind int, seed int64) core.Scenario
 	}}
 }
 
+// the request is still queued behind a busy actor when the asker's timeout could expire; the actor answers it later
+func c13BusyActor(id string, capacity int, seed int64) core.Scenario {
+	return core.Scenario{ID: id, Class: "Ask.timeout", Run: func(c *core.Ctx) {
+		rep := map[string]any{"scenario": id, "class": "request queued behind a busy actor", "mailbox_capacity": capacity}
+		c.Eval(1)
+		c.Distinct(id)
+		type qAsk = fpgo.AskDef[interface{}, string]
+		gate := make(chan struct{})
+		busy := make(chan struct{}, 1)
+		replied := make(chan string, 8)
+		eff := func(self *fpgo.ActorDef[interface{}], m interface{}) {
+			switch x := m.(type) {
+			case string:
+				if x == "block" {
+					busy <- struct{}{}
+					<-gate
+				}
+			case *qAsk:
+				if s, _ := x.Message.(string); s == "probe" {
+					x.Reply("alive")
+					return
+				}
+				done := make(chan string, 1)
+				go func() {
+					defer func() {
+						if r := recover(); r != nil {
+							done <- "panic: " + fmt.Sprint(r)
+						}
+					}()
+					x.Reply("answer")
+					done <- "returned"
+				}()
+				select {
+				case r := <-done:
+					replied <- r
+				case <-time.After(10 * time.Second):
+					replied <- "blocked"
+				}
+			}
+		}
+		var actor *fpgo.ActorDef[interface{}]
+		if capacity == 0 {
+			actor = fpgo.Actor.New(eff)
+		} else {
+			actor = fpgo.Actor.NewByOptions(eff, make(chan interface{}, capacity), map[string]interface{}{})
+		}
+		actor.Send("block")
+		<-busy
+		type res struct {
+			v   string
+			err error
+		}
+		out := make(chan res, 1)
+		go func() {
+			v, err := fpgo.AskNewGenerics[interface{}, string]("q").AskOnceWithTimeout(actor, 3*time.Millisecond)
+			out <- res{v, err}
+		}()
+		time.Sleep(time.Duration(8+seed%5) * time.Millisecond) // well beyond the asker's timeout
+		close(gate)
+		var r res
+		select {
+		case r = <-out:
+		case <-time.After(30 * time.Second):
+			c.Violationf("busy-actor:asker-stuck", rep, "AskOnceWithTimeout(3ms) towards a busy actor never returned")
+			return
+		}
+		if !((r.err == nil && r.v == "answer") || (r.err == fpgo.ErrActorAskTimeout && r.v == "")) {
+			c.Violationf("busy-actor:result", rep, "AskOnceWithTimeout returned (%q, %v)", r.v, r.err)
+		}
+		select {
+		case rr := <-replied:
+			c.Count("busy_actor_replies."+strings.SplitN(rr, ":", 2)[0], 1)
+			if strings.HasPrefix(rr, "panic") {
+				c.Violationf("late-reply:panics", rep, "the reply to a request that had been queued behind a busy actor panicked: %s", rr)
+			} else if rr == "blocked" {
+				c.Violationf("late-reply:blocks", rep, "the reply to a request whose asker timed out while it was queued behind a busy actor blocks the actor forever (asker saw (%q, %v))", r.v, r.err)
+			}
+		case <-time.After(30 * time.Second):
+			c.Inconclusive("no reply outcome in " + id)
+			return
+		}
+		pr, err := fpgo.AskNewGenerics[interface{}, string]("probe").AskOnceWithTimeout(actor, 60*time.Second)
+		if err != nil || pr != "alive" {
+			c.Violationf("late-reply:actor-disturbed", rep, "after answering a stale request the actor does not serve a fresh ask: (%q, %v)", pr, err)
+		}
+		actor.Close()
+	}}
+}
+
 func c13Scenarios(c *core.Ctx, race bool) []core.Scenario {
 	var out []core.Scenario
 	n := c.Pick(30, 300)
@@ -312,6 +401,9 @@ func c13Scenarios(c *core.Ctx, race bool) []core.Scenario {
 	if race {
 		per = c.Pick(5, 50)
 	}
+	for i := 0; i < per; i++ {
+		out = append(out, c13BusyActor(fmt.Sprintf("busy-actor-cap%d-%d-race%v", i%3, i, race), i%3, c.Seed*61+int64(i)))
+	}
 	for class := 0; class < 4; class++ {
 		for i := 0; i < per; i++ {
 			out = append(out, c13Timeout(fmt.Sprintf("timeout-class%d-%d-race%v", class, i, race), class, i%4, c.Seed*37+int64(i)))
@@ -325,13 +417,15 @@ func init() {
 		ID: "C13",
 		Meta: func(c *core.Ctx) core.Meta {
 			return core.Meta{
-				Level: "exploration",
-				Rule: "correlation: 1..32 concurrent askers x 1..200 asks through AskOnce / AskOnceWithTimeout(60 s) / AskChannel; the reply is a pure function of the request payload and a per-request nonce, the actor replies inline, from helper goroutines in shuffled order, or in reversed batches, so every asker can verify that it received exactly its own answer; timeouts as logical classes: 'in time' = 60 s timeout + immediate reply (an error is a violation), 'never' = 5 ms timeout and no reply, 'after' = the actor replies only after AskOnceWithTimeout has RETURNED ErrActorAskTimeout (signalled by the harness) under recover with a 10 s blocked-detector, 'racing' = PRNG delays around a 200-600 us timeout and the asker parked at ask.timeout.fired so that the reply lands between the timer and the close; afterwards a fresh ask with a 60 s timeout must be served; payload kinds int/string/struct/nil; repeated under -race. distinct_nontrivial = distinct scenarios",
+				Level:       "exploration",
+				Rule:        "correlation: 1..32 concurrent askers x 1..200 asks through AskOnce / AskOnceWithTimeout(60 s) / AskChannel; the reply is a pure function of the request payload and a per-request nonce, the actor replies inline, from helper goroutines in shuffled order, or in reversed batches, so every asker can verify that it received exactly its own answer; timeouts as logical classes: 'in time' = 60 s timeout + immediate reply (an error is a violation), 'never' = 5 ms timeout and no reply, 'after' = the actor replies only after AskOnceWithTimeout has RETURNED ErrActorAskTimeout (signalled by the harness) under recover with a 10 s blocked-detector, 'queued' = the request waits behind a busy actor (mailbox capacity 0..2) beyond the asker's 3 ms timeout and is answered afterwards, 'racing' = PRNG delays around a 200-600 us timeout and the asker parked at ask.timeout.fired so that the reply lands between the timer and the close; afterwards a fresh ask with a 60 s timeout must be served; payload kinds int/string/struct/nil; repeated under -race. distinct_nontrivial = distinct scenarios",
 				Assumptions: []string{"a 60 s timeout is never hit by an immediately replying actor (safe direction only: a timeout error is a violation, finishing late is not)", "in the racing class either outcome (reply or timeout) is legal"},
 			}
 		},
 		Scenarios: c13Scenarios,
 		Batch:     10, RaceToo: true, RaceBatch: 10, Par: 8, Timeout: 300e9,
-		RaceRelevant: func(s core.RaceSig) bool { return strings.Contains(s.Text, "actor.go") && !strings.Contains(s.Text, ".Close") },
+		RaceRelevant: func(s core.RaceSig) bool {
+			return strings.Contains(s.Text, "actor.go") && !strings.Contains(s.Text, ".Close")
+		},
 	})
 }
